@@ -542,6 +542,51 @@ let encbuf_suite () =
     done
   with End_of_file -> ())
 
+(* ---------------------------------------------------------------- suite: valueapi *)
+let rec nat_of_int i = if i <= 0 then O else S (nat_of_int (i - 1))
+let render_outs l = String.concat "," (List.map (function
+    | HNone -> "-" | HPanic -> "P" | HVal [] -> "e"
+    | HVal vs -> String.concat "." (List.map (fun v -> string_of_int (int_of_n v)) vs)) l)
+let valueapi_suite () =
+  let idx = ref 0 in
+  let pending = ref None in
+  (try
+    while true do
+      let line = input_line stdin in
+      let n = String.length line in
+      if n > 2 && line.[0] = 'C' then begin
+        match split_sp line with
+        | [_; "S"; _kind; ops] ->
+          let parse o =
+            let r = String.sub o 1 (String.length o - 1) in
+            let nums = List.map int_of_string (String.split_on_char '.' r) in
+            match o.[0], nums with
+            | 'n', [x] -> HNew (nat_of_int x)
+            | 'c', [x; y] -> HClone (nat_of_int x, nat_of_int y)
+            | 'a', [x; v] -> HAdd (nat_of_int x, n_of_int v)
+            | 'r', [x] -> HRead (nat_of_int x)
+            | _ -> failwith ("script op " ^ o) in
+          pending := Some (`Script (List.map parse (String.split_on_char ',' ops)))
+        | _ :: "A" :: _ -> pending := Some `Api
+        | _ -> failwith ("bad record: " ^ line)
+      end else if n >= 2 && line.[0] = 'I' then begin
+        let i = !idx in incr idx;
+        let body = String.sub line 2 (n - 2) in
+        (match !pending with
+         | Some (`Script ops) ->
+           emit (Printf.sprintf "M %d %s" i (render_outs (outs_s heap0 ops)));
+           (* the property: what the implementation returned is what value semantics returns, without a panic *)
+           let ok = wfb [] ops && body = render_outs (outs_p [] ops) in
+           emit (Printf.sprintf "S %d %d C19clone -" i (if ok then 1 else 0))
+         | Some `Api ->
+           emit (Printf.sprintf "M %d ok" i);
+           emit (Printf.sprintf "S %d %d C19api -" i (if body = "ok" then 1 else 0))
+         | None -> failwith "I without C");
+        pending := None
+      end
+    done
+  with End_of_file -> ())
+
 let () =
   (match Sys.argv with
    | [| _; "filter" |] -> filter_suite ()
@@ -549,6 +594,7 @@ let () =
    | [| _; "agent" |] -> agent_suite ()
    | [| _; "wire" |] -> wire_suite ()
    | [| _; "encbuf" |] -> encbuf_suite ()
+   | [| _; "valueapi" |] -> valueapi_suite ()
    | [| _; "attrval" |] -> attrval_suite ()
    | _ -> prerr_endline "usage: driver <suite> < cases"; exit 2);
   flush_out ()
